@@ -64,7 +64,7 @@ def isStr : PyVal → Bool
 def isNotNone (v : PyVal) : Bool := !v.isNone
 
 /-- `x is None` -/
-def isNone (v : PyVal) : Bool := v.isNone
+def isNoneV (v : PyVal) : Bool := v.isNone
 
 /-- `a == b` on values (str / None here) -/
 def eq (a b : PyVal) : Bool := PyVal.pyEq a b
